@@ -9,6 +9,7 @@ def run(ctx):
     runs = scen.general_runs(ctx, 70 if ctx.quick else 1500, batches=True)
     runs += scen.benchmark_runs(ctx, quick=ctx.quick)
     runs += scen.past_budget_runs(ctx, 6 if ctx.quick else 60)
+    runs += scen.small_r_runs(ctx, 10 if ctx.quick else 120)
     if not ctx.quick:
         runs += scen.long_runs(ctx)
     failures, stats = validate_runs(ctx, runs)
